@@ -214,9 +214,6 @@ impl Table {
                 if !ok {
                     return Err(format!("atom {a} value {v} out of range for {}", ty.name()));
                 }
-                if Some(*fi) == self.key && *ty == Ty::I32 && v < 0 {
-                    return Err("negative Int32 key".into());
-                }
             }
         }
         for s in &self.pool {
@@ -299,6 +296,41 @@ fn build_strings(t: &Table) -> (Vec<u8>, Vec<Vec<u32>>) {
     }
     let mut block = vec![0u8];
     match t.layout.mode {
+        3 => {
+            // no leading empty string: the first distinct string sits at offset 0 (the crate's own unit-test
+            // fixture looks like this); an empty string is referenced through the terminator of the first one
+            block.clear();
+            let mut distinct: Vec<&str> = vec![];
+            for row in &t.rows {
+                for (a, (_, _, ty)) in am.iter().enumerate() {
+                    if *ty == Ty::Str {
+                        let s = t.str_of(row[a]);
+                        if !s.is_empty() && !distinct.contains(&s) {
+                            distinct.push(s);
+                        }
+                    }
+                }
+            }
+            let mut place: BTreeMap<&str, u32> = BTreeMap::new();
+            for s in &distinct {
+                place.insert(s, block.len() as u32);
+                block.extend_from_slice(s.as_bytes());
+                block.push(0);
+            }
+            if block.is_empty() {
+                block.push(0);
+                place.insert("", 0);
+            } else {
+                place.insert("", distinct[0].len() as u32);
+            }
+            for (r, row) in t.rows.iter().enumerate() {
+                for (a, (_, _, ty)) in am.iter().enumerate() {
+                    if *ty == Ty::Str {
+                        offs[r][a] = place[t.str_of(row[a])];
+                    }
+                }
+            }
+        }
         1 => {
             // a private copy per reference
             for (r, row) in t.rows.iter().enumerate() {
